@@ -20,6 +20,7 @@ from . import build
 
 VERIF = build.VERIF
 NPROC = int(os.environ.get("VERIF_JOBS", "16"))
+T0 = time.time()
 
 CPU_BOUND_S = 20.0          # the property's bound for <= 8 KiB of input (C01)
 WATCHDOG_S = 90.0           # generous wall-clock watchdog: firing is *inconclusive* unless CPU time is over the bound
@@ -459,7 +460,7 @@ def finish(run, level, rule, required=None, assumptions=None, exhaustive=None, e
         coverage.setdefault(k, v)
     ev = {
         "property_id": prop, "tier": run.tier, "seed": run.seed, "level": level, "coverage": coverage,
-        "assumptions": assumptions or [], "wall_s": round(time.time() - run.t0, 2), "violations": len(new),
+        "assumptions": assumptions or [], "wall_s": round(time.time() - T0, 2), "violations": len(new),
     }
     os.makedirs(os.path.join(VERIF, "evidence"), exist_ok=True)
     with open(os.path.join(VERIF, "evidence", prop + ".json"), "w") as f:
@@ -469,7 +470,7 @@ def finish(run, level, rule, required=None, assumptions=None, exhaustive=None, e
         print(l)
     print("[%s] tier=%s seed=%d evaluations=%d distinct_nontrivial=%d violations=%d known=%d inconclusive=%d wall=%.1fs"
           % (prop, run.tier, run.seed, run.evaluations, distinct, len(new), len(seen_known),
-             len(run.inconclusive), time.time() - run.t0))
+             len(run.inconclusive), time.time() - T0))
     if lines:
         return 1
     if run.errors:
